@@ -74,7 +74,7 @@ ALSO_RULES_OF = {"C02": ("C03/ThrowingNeverNull",),
                  # "counters change by exactly the amount an operation consumes or returns": C04's accounting guards say that
                  "C18": ("C04/CapacityMovesByTaken", "C04/DeallocReturnsWhatWasTaken", "C04/ReportedCapacityIsUsable", "C04/FailureKeepsCapacity"),
                  "C05": ("C16", "C14/AllFreedAtExit", "C14/ShrinkRequestReturnsBlocks", "C14/BlocksKeptForReuse", "C09/UpstreamBlocksReturnedAtEnd"), "C12": ("C01", "C03", "C15/MovedFromSilent", "C09/ReleaseSameShape", "C09/ReleaseOnce", "C09/EverythingReleasedToLeaves"),
-                 "C06": ("C01",), "C07": ("C01",), "C03": ("C01", "C11/NoWriteOutsideBlock", "C11/PieceAfterObjectInsideBlock",
+                 "C06": ("C01", "C14/BlocksKeptForReuse", "C14/ScopeRestoresStack", "C14/ShrinkRequestReturnsBlocks"), "C07": ("C01",), "C03": ("C01", "C11/NoWriteOutsideBlock", "C11/PieceAfterObjectInsideBlock",
                          # "a failed request leaves ... the allocator able to serve later valid requests": it leaves the
                          # figures that decide about later requests as they were
                          "C18/FailedRequestKeepsNextCapacity", "C18/FailedRequestKeepsCapacity"),
@@ -176,10 +176,15 @@ def run_seq_property(prop, tier, seed):
         # the stateless low-level allocators (heap, malloc, new, virtual memory): driver `lowlevel`, contract FenceTrace
         from . import plans_lowlevel
         jobs += plans_lowlevel.history_jobs(prop, tier, seed, leak_only=(prop == "C15"))
-    if prop in ("C01", "C05"):
-        # temporary_allocator / temporary block source (driver `temp`): a reduced C14 plan
+    if prop in ("C01", "C05", "C06"):
+        # temporary_allocator / temporary block source (driver `temp`): a reduced C14 plan (C06: a temporary allocator
+        # is a marker on the temporary stack - when it ends the stack is as it was, the blocks it took stay cached)
         from . import plans_temp
         jobs += plans_temp.jobs_c14(prop, tier, seed, reduced=True)
+    if prop == "C05":
+        # the LIFO-only block sources refuse (report) a block that is not the youngest: driver `badcall`
+        from . import plans_lowlevel
+        jobs += plans_lowlevel.block_order_jobs(prop, tier, seed)
     if prop in ("C03", "C05"):
         from . import plans_compose
         jobs += plans_compose.extra_jobs(prop, tier, seed)
